@@ -32,9 +32,9 @@ ASSUMPTIONS = ["run-level start/end metadata are concrete, ordered datetimes (da
                "data time ranges of consecutive subruns are ordered and disjoint (documented requirement)",
                "multi_run's thread pool is replaced by a synchronous stub executor (C15 covers its ordering)",
                "all time values in [0, 2^62)"]
-OUTSIDE = ["sub-run time-range specs other than 'all'", "threaded processor for superruns", "OverlapWindowPlugin / "
-           "DownChunkingPlugin as superrun levels and superrun processing starting at two levels of one graph (only "
-           "Chunk.split's part of it is decided, by splitrun)"]
+OUTSIDE = ["sub-run time-range specs other than 'all'", "threaded processor for superruns", "OverlapWindowPlugin as a "
+           "superrun level and superrun processing starting at two levels of one graph (only Chunk.split's part of it "
+           "is decided, by splitrun)"]
 STUBS = ["np/int/min/max shims", "in-memory frontend", "synchronous executor in strax.utils.multi_run"]
 SUP = "_sup"
 
@@ -67,7 +67,7 @@ def _sorted_keys(x):
     return x
 
 
-def build(layouts, obj, write, rechunk=None):
+def build(layouts, obj, write, rechunk=None, down=False):
     import strax
 
     MemFrontend, _, _ = ctx.make_storage_classes()
@@ -81,6 +81,10 @@ def build(layouts, obj, write, rechunk=None):
     fe = SortingFrontend()
     P = [ctx.P_source_runs("src", "ksrc", layouts, obj), P_up("m1", "src", obj, 1, rechunk=rechunk),
          P_up("t1", "m1", obj, 2, rechunk=rechunk)]
+    if down:
+        # the first superrun level is a DownChunkingPlugin (one chunk per input row where a cut is admissible)
+        P[1] = ctx.P_down("m1", "src", obj)
+        P[1].allow_superrun = True
     st = ctx.make_context(P, storage=[fe])
     st.set_context_config({"write_superruns": write})
     runs = list(layouts)  # insertion order = order of run start
@@ -189,9 +193,9 @@ def _check(st, fe, runs, layouts, target, write, redefine):
     return [g[0] for g in got]
 
 
-def sym_superrun(spec, target="t1", write=False, redefine=False, rechunk=None, names=None):
+def sym_superrun(spec, target="t1", write=False, redefine=False, rechunk=None, names=None, down=False):
     layouts = _layouts(spec, True, names=names)
-    st, fe, runs = build(layouts, True, write, rechunk)
+    st, fe, runs = build(layouts, True, write, rechunk, down)
     st.define_run(SUP, runs)
     return _check(st, fe, runs, layouts, target, write, redefine)
 
@@ -203,7 +207,7 @@ def nat_superrun(params, model):
         inj = None
         import strax.utils as su
 
-        st, fe, runs = build(layouts, False, params.get("write", False), params.get("rechunk"))
+        st, fe, runs = build(layouts, False, params.get("write", False), params.get("rechunk"), params.get("down", False))
         st.define_run(SUP, runs)
         label = core.concrete_run(lambda: _check(st, fe, runs, layouts, params.get("target", "t1"),
                                                  params.get("write", False), params.get("redefine", False)), model)
@@ -268,6 +272,9 @@ def _grid(tier):
     # run ids whose lexical order is not the order of run start ("9" before "10")
     g.append(dict(spec={"0": [1], "1": [1]}, target="m1", names={"0": "9", "1": "10"}))
     g.append(dict(spec={"0": [1, 1], "1": [2]}, target="t1", write=True, names={"0": "9", "1": "10"}))
+    for s in ({"0": [2], "1": [1]}, {"0": [2], "1": [2]}):
+        g.append(dict(spec=s, target="t1", down=True))
+        g.append(dict(spec=s, target="t1", down=True, write=True))
     for s in specs:
         for tgt in ("m1", "t1"):
             g.append(dict(spec=s, target=tgt))
@@ -280,6 +287,9 @@ def _grid(tier):
 
 
 MUTANTS = [
+    dict(name="down-chunked pieces record the spans of the whole input (original defect F-C14h)", file="strax/plugins/down_chunking_plugin.py",
+         old="                self._runs_within(superrun, v.start, v.end),\n                self._runs_within(subruns, v.start, v.end),",
+         new="                superrun,\n                subruns,"),
     dict(name="piece named after the first run of the unsplit chunk (original defect F-C14g)", file="strax/chunk.py", only="splitrun",
          old="            run_id_first_chunk = list(superrun_first_chunk.keys())[0]", new="            run_id_first_chunk = list(self.superrun.keys())[0]"),
     dict(name="original F-C14/F-C14e: split keeps the whole subrun spans when continuity is not promised", file="strax/chunk.py",
